@@ -353,13 +353,44 @@ func (s *Scanner) skipDollarQuote() error {
 	}
 }
 
+// The kinds of BEGIN blocks.
+const (
+	blockBegin = iota
+	blockAtomic
+	blockTryCatch
+	blockKinds
+)
+
+// scanned returns the key of the block of the given kind that starts at the
+// current position in s.begins, and its length (or -1) if it was scanned before.
+// A block that is seen for the first time is recorded as having no END, until
+// its length is stored.
+func (s *Scanner) scanned(kind int) (at, n int, ok bool) {
+	if s.begins == nil {
+		s.begins = make(map[int]int)
+	}
+	at = (s.base+s.total)*blockKinds + kind
+	if n, ok = s.begins[at]; !ok {
+		s.begins[at] = -1
+	}
+	return at, n, ok
+}
+
 func (s *Scanner) skipBeginAtomic() error {
 	m := reBeginAtomic.FindString(s.input[s.pos-1:])
 	if m == "" {
 		return s.error(s.pos, "unexpected missing BEGIN ATOMIC block")
 	}
 	s.addPos(len(m) - 1)
-	body := &Scanner{ScannerOptions: s.ScannerOptions}
+	at, n, ok := s.scanned(blockAtomic)
+	switch {
+	case ok && n < 0:
+		return s.error(s.pos, "unexpected eof when scanning sql body")
+	case ok:
+		s.addPos(n)
+		return nil
+	}
+	body := &Scanner{ScannerOptions: s.ScannerOptions, base: s.base + s.total, begins: s.begins}
 	if err := body.init(s.input[s.pos:]); err != nil {
 		return err
 	}
@@ -375,6 +406,7 @@ func (s *Scanner) skipBeginAtomic() error {
 			break
 		}
 	}
+	s.begins[at] = body.total
 	s.addPos(body.total)
 	return nil
 }
@@ -385,10 +417,19 @@ func (s *Scanner) skipBeginTryCatch() error {
 		return s.error(s.pos, "unexpected missing BEGIN TRY block")
 	}
 	s.addPos(len(m) - 1)
-	body := &Scanner{ScannerOptions: s.ScannerOptions}
+	at, n, ok := s.scanned(blockTryCatch)
+	switch {
+	case ok && n < 0:
+		return s.error(s.pos, "unexpected eof when scanning sql body")
+	case ok:
+		s.addPos(n)
+		return nil
+	}
+	body := &Scanner{ScannerOptions: s.ScannerOptions, base: s.base + s.total, begins: s.begins}
 	if err := body.init(s.input[s.pos:]); err != nil {
 		return err
 	}
+	size := 0
 	for {
 		stmt, err := body.stmt()
 		if err == io.EOF {
@@ -401,12 +442,14 @@ func (s *Scanner) skipBeginTryCatch() error {
 			// In case "END CATCH" is not followed by a semicolon (\n instead),
 			// backup the extra consumed statement (it might be END;) and exit.
 			if !strings.HasSuffix(strings.TrimSpace(end), ";") {
-				s.addPos(-(len(stmt.Text) - len(end)))
+				size -= len(stmt.Text) - len(end)
 			}
 			break
 		}
 	}
-	s.addPos(body.total)
+	size += body.total
+	s.begins[at] = size
+	s.addPos(size)
 	return nil
 }
 
@@ -420,19 +463,15 @@ func (s *Scanner) skipBegin() error {
 		return s.error(s.pos, "unexpected missing BEGIN block")
 	}
 	s.addPos(len(m) - 1)
-	if s.begins == nil {
-		s.begins = make(map[int]int)
-	}
-	at := s.base + s.total
-	switch n, ok := s.begins[at]; {
+	at, n, ok := s.scanned(blockBegin)
+	switch {
 	case ok && n < 0:
 		return s.error(s.pos, "unexpected eof when scanning compound statements")
 	case ok:
 		s.addPos(n)
 		return nil
 	}
-	s.begins[at] = -1
-	group := &Scanner{ScannerOptions: s.ScannerOptions, base: at, begins: s.begins}
+	group := &Scanner{ScannerOptions: s.ScannerOptions, base: s.base + s.total, begins: s.begins}
 	if s.BeginEndTerminator {
 		group.endterm = reEndTerm
 	}
